@@ -27,6 +27,8 @@ CHECKS = {
          "Lean 4 proof (induction over the literal body) + swap oracle"),
  "C18": ("4.18", "Lean theorems (lexer half): the identifier sub-lexer's result depends only on the identifier's length and on membership in the regenerated keyword table; the engine half (rules read spellings only through length/prefix/class) is decided by the consistent-renaming oracle on the real pipeline (partial)",
          "Lean 4 proof (induction over the identifier) + renaming oracle"),
+ "C19": ("4.19", "Lean theorems (position half): prepending complete lines shifts the visual position of every later offset by exactly that many lines and leaves the column unchanged (visualPos_prefix), hence by C09 a token at the corresponding offset is reported that many lines lower in the same column; the loop of Registry.run is a left fold (C07). Line-equivariance and history-transparency of the rules are decided by the locality oracle on the real pipeline: header prepended, comment line inserted above a definition, conforming function appended (partial)",
+         "Lean 4 proof (fold lemma over the position spec) + locality oracle"),
 }
 
 NOT_YET = {
